@@ -32,6 +32,11 @@ func mapOrderRewrites() []rewrite {
 			edits: [][2]string{{"for want := range f.Wants {", "for _, want := range verifrt.MapOrder(\"finder.Wants\", f.Wants) {"}},
 			count: []int{1},
 		},
+		{
+			name: "maporder:transaction", file: "pkg/transaction/transaction.go", imp: true,
+			edits: [][2]string{{"for branch, sum := range m {", "for _, branch := range verifrt.MapOrder(\"transaction.Commit\", m) {\n\t\tsum := m[branch]"}},
+			count: []int{2},
+		},
 	}
 }
 
